@@ -227,7 +227,7 @@ func init() {
 	// ---- C16 ----
 	{
 		p := &Prop{ID: "C16", Outside: []string{
-			"-format templates, {{json .}} and the problem-matcher regular expression (text/template, encoding/json, regexp on symbolic text): not encodable",
+			"-format templates and {{json .}} (text/template, encoding/json): not encodable; the problem-matcher round trip is decided for one echo site (unknown key, printable ASCII up to 3 / 4 bytes), not for every message",
 			"colour escape sequences; the display widths themselves (go-runewidth is taken as given; characters outside the seven of the wide-snippet harness)",
 			"user text longer than the bound at one position; two symbolic positions at once",
 			"messages of the two external-tool rules and of the deprecated-commands rule",
@@ -246,6 +246,8 @@ func init() {
 			{Entry: "HarnessC16SnippetWide", Args: []int64{4}, Bound: "source lines of 4 units from {a, space, tab, U+200B, U+3042, U+00E9, U+0301} x 64-bit symbolic column; display widths of the library taken as given", Require: []string{"rendered", "caret"}},
 			{Entry: "HarnessC16TypeNames", Args: []int64{1}, Bound: "a user-chosen name of 1 arbitrary byte (matrix row / include key, dispatch / call input, secret, job output) printed inside an object type", Require: []string{"diagnostic", "type-printed"}},
 			{Entry: "HarnessC16TypeNames", Args: []int64{2}, Bound: "... 2 arbitrary bytes", Require: []string{"diagnostic", "type-printed"}},
+			{Entry: "HarnessC16Matcher", Args: []int64{2}, Bound: "header of a diagnostic echoing a 2-byte printable key parsed back by the shipped problem-matcher pattern (executed symbolically: leftmost-first backtracking over the compiled program)", Require: []string{"diagnostic"}},
+			{Entry: "HarnessC16Matcher", Args: []int64{3}, Bound: "... 3-byte key", Require: []string{"diagnostic"}},
 			{Entry: "HarnessC16Docker", Args: []int64{3}, Bound: "uses: docker:// + 3 arbitrary bytes (url.Parse on symbolic text is a free-error contract stub)", Require: []string{"linted"}},
 			{Entry: "HarnessC16Docker", Args: []int64{4}, Bound: "... 4 arbitrary bytes", Require: []string{"linted"}},
 			{Entry: "HarnessC16Glob", Args: []int64{2, 0}, Bound: "filter-pattern validator messages for every 2-byte pattern", Require: []string{"diagnostic"}},
@@ -257,6 +259,7 @@ func init() {
 			HRun{Entry: "HarnessC16Echo", Args: []int64{3, 1}, Bound: "'@' + 3 arbitrary bytes", Require: []string{"diagnostic"}},
 			HRun{Entry: "HarnessC16Echo", Args: []int64{2, 2}, Bound: "'${{ ' + 2 arbitrary bytes", Require: []string{"diagnostic"}},
 			HRun{Entry: "HarnessC16Snippet", Args: []int64{6}, Bound: "sources of 6 bytes", Require: []string{"line-found", "caret"}},
+			HRun{Entry: "HarnessC16Matcher", Args: []int64{4}, Bound: "problem-matcher round trip with a 4-byte key", Require: []string{"diagnostic"}},
 			HRun{Entry: "HarnessC16SnippetWide", Args: []int64{5}, Bound: "source lines of 5 units", Require: []string{"rendered", "caret"}},
 			HRun{Entry: "HarnessC16Glob", Args: []int64{4, 0}, Bound: "filter-pattern validator messages for every 4-byte pattern", Require: []string{"diagnostic"}},
 			HRun{Entry: "HarnessC16Glob", Args: []int64{6, 1}, Bound: "... every 6-byte pattern over the 13-character alphabet", Require: []string{"diagnostic"}},
